@@ -180,6 +180,37 @@ func transClient(repo string, f *Facts) {
 	} else {
 		f.bad("translate Client.handshake: not found")
 	}
+	// ---- Ping: everything up to the point where the answer is awaited
+	if fd := p.funcDecl("Client", "Ping"); fd != nil && fd.Body != nil {
+		var head []ast.Stmt
+		found := false
+		for _, st := range fd.Body.List {
+			if nodeText(st) == "p, err := c.packet(ctx)" {
+				found = true
+				break
+			}
+			head = append(head, st)
+		}
+		if !found {
+			f.bad("translate Client.Ping: `p, err := c.packet(ctx)` not found")
+		} else {
+			g := &glFunc{name: "Client.Ping/request", f: f, state: "s", recv: "c", fallOff: "(s, false)",
+				exprs: map[string]string{"c.IsClosed()": "isClosed s", "ErrClosed": "true", `errors.Wrap(err, "flush")`: "true"},
+				stmts: map[string]string{
+					"c.writer.ChainBuffer(func(b *proto.Buffer) { b.Encode(proto.ClientCodePing) })": "{ s with pending := s.pending + 1 }",
+				},
+				noops:       map[string]bool{"if c.otel": true},
+				effectInits: map[string]string{"err := c.flush(ctx)": "flush s fail connErr"},
+				ret:         func(rs []string) string { return "(s, " + rs[0] + ")" },
+			}
+			body := g.block(head, g.fallOff)
+			if !g.failed {
+				f.trans.WriteString("\n/-- `(*Client).Ping` up to the point where the answer is awaited: new state, error? -/\ndef pingRequest (s : St) (fail : Option Bool) (connErr : Bool) : St × Bool :=\n" + indent(body, "  ") + "\n")
+			}
+		}
+	} else {
+		f.bad("translate Client.Ping: not found")
+	}
 	// ---- Do: the cancel-watch goroutine and the statements after g.Wait()
 	fd := p.funcDecl("Client", "Do")
 	if fd == nil || fd.Body == nil {
